@@ -139,7 +139,7 @@ def c01_replay(params, tier):
     return out
 
 
-@family("C02", "C12", "C11")
+@family("C02", "C12", "C11", "C15")
 def c02_fanout(params, tier):
     if params is None:
         return [{"n": n, "adder_sub": a, "order": o, "usage": u, "bad": bad, "ghost": g}
@@ -360,7 +360,7 @@ def c05_after_cross_app_failure(params, tier):
     return [("c05_after_cross_app_failure:%s" % sorted(p.items()), b.h, U if p["usage"] else NU, {})]
 
 
-@family("C01", "C02", "C08", "C13")
+@family("C01", "C02", "C08", "C13", "C15")
 def after_cross_app_failure(params, tier):
     """A client of another app names the id of a live mailbox (fails internally: known finding F8, owned by C06/C17).
     Whatever that failed command leaves behind - it runs statements before it fails, and the next commit of anybody
